@@ -200,6 +200,11 @@ def run_case(case):
     al, cr = along_cross(ex, ey, mxy, wd)
     ref = km_oracle(P, sigma_v, al, cr, res)
     scale = float(ref.max()) or 1.0
+    if 0.0 < scale < 1e-290:
+        # the whole raster lies where the footprint has decayed into the subnormal range (a receptor far beside the raster, thorough seed 6:
+        # peak 1e-318): subnormal numbers carry no relative accuracy - compared on the absolute scale of the smallest normal number instead
+        scale = 2.3e-308
+        buckets["closed_form_compared_on_the_absolute_scale_of_the_normal_range"] = 1
     # cells whose along-wind coordinate is within rounding of zero may fall on either side of the receptor
     amb = np.abs(al) < 1e-9 * half
     d = np.abs(ffm - ref)
@@ -224,7 +229,8 @@ def run_case(case):
             refb = km_oracle(Px, sigma_v, al, cr, res)
             db = np.abs(fb - refb)
             db[amb] = 0
-            relb = float(db.max() / (float(refb.max()) or 1.0))
+            scb = float(refb.max()) or 1.0
+            relb = float(db.max() / (scb if not 0.0 < scb < 1e-290 else 2.3e-308))   # (subnormal rasters: absolute scale, as above)
             resid["closed_form_rel"] = max(resid["closed_form_rel"], relb)
             if relb > 1e-10:
                 viol.append({"what": "differs_from_published_closed_form", "history": f"{lab} call with the same zm and L, other ws/ustar/z0",
